@@ -840,3 +840,53 @@ Lemma session_save_after c hd s pre rd tr ti :
 Proof.
   rewrite session_app. cbn [session]. now rewrite state_after_flag.
 Qed.
+
+(* ================================================================== channel selectors *)
+Lemma layer_numpy_split cm l : layer_numpy cm l = layer_numpy_color cm l ++ layer_numpy_shape l.
+Proof. reflexivity. Qed.
+
+Lemma doc_numpy_plain hd st : h_cm hd <> CRgb -> doc_numpy hd st = get_data st hd.
+Proof.
+  intro H. unfold doc_numpy. destruct (get_data st hd) as [ps|e]; cbn [bind]; [|reflexivity].
+  destruct (h_cm hd); try reflexivity. congruence.
+Qed.
+
+(* topil(k) and plane k of numpy() are the same samples (documents whose NumPy export is not
+   un-matted: every mode but RGB; RGB with at most 3 planes is covered by [doc_channel_agree_rgb3]) *)
+Lemma doc_channel_agree hd st k p ps : h_cm hd <> CRgb -> 0 <= k ->
+  doc_topil_chan hd st k = Ok (Some p) -> doc_numpy_sel hd st true 0 = Ok ps ->
+  nth_error ps (Z.to_nat k) = Some p.
+Proof.
+  intros Hc Hk Ht Hn. unfold doc_numpy_sel in Hn. cbn [Z.eqb andb] in Hn.
+  rewrite doc_numpy_plain in Hn by assumption.
+  unfold doc_topil_chan in Ht. destruct (h_channels hd <=? k); [discriminate|].
+  destruct (get_data st hd) as [planes|e]; cbn [bind] in *; [|discriminate].
+  inversion Hn; subst. now inversion Ht.
+Qed.
+
+(* numpy("shape") of a document with transparency is the plane topil(TRANSPARENCY_MASK) returns,
+   when the transparency plane is the last one (channels = colour planes + 1) *)
+Lemma doc_shape_agree hd st a b :
+  h_cm hd <> CRgb -> h_cm hd <> CBitmap -> h_channels hd = cm_channels (h_cm hd) + 1 -> header_ok hd ->
+  doc_numpy_sel hd st true 2 = Ok [a] -> doc_topil_transparency hd st = Ok (Some b) -> a = b.
+Proof.
+  intros Hc Hb Hch Hh Hn Ht. unfold doc_numpy_sel in Hn. cbn [Z.eqb andb negb] in Hn.
+  rewrite doc_numpy_plain in Hn by assumption.
+  unfold doc_topil_transparency, doc_topil_chan in Ht.
+  assert (Hk : Z.of_nat (pil_channels (cm_pil (h_cm hd) false)) = cm_channels (h_cm hd))
+    by (destruct (h_cm hd); try congruence; reflexivity).
+  rewrite Hk in Ht.
+  destruct (h_channels hd <=? cm_channels (h_cm hd)) eqn:E; [lia|].
+  destruct (get_data st hd) as [planes|e] eqn:Eg; cbn [bind] in *; [|discriminate].
+  pose proof (get_data_fit _ _ _ Hh Eg) as [Hlen _].
+  inversion Hn; subst a; clear Hn. inversion Ht as [Hnth]; clear Ht.
+  assert (Hl : length planes = S (Z.to_nat (cm_channels (h_cm hd)))).
+  { unfold zlen in Hlen. destruct (h_cm hd); cbn in *; lia. }
+  clear - Hnth Hl. revert Hnth Hl. generalize (Z.to_nat (cm_channels (h_cm hd))) as n.
+  induction planes as [|x planes IH]; intros n Hnth Hl; [discriminate|].
+  destruct n.
+  - destruct planes; [|discriminate]. cbn in *. congruence.
+  - cbn [nth_error] in Hnth. destruct planes as [|y planes]; [discriminate|].
+    change (last (x :: y :: planes) []) with (last (y :: planes) []).
+    apply (IH n); [exact Hnth| cbn in *; lia].
+Qed.
